@@ -201,7 +201,7 @@ PROPS = {
     ),
     "C11": dict(
         modules=["Fosite.Props.C11", "Fosite.Props.C11b"],
-        drivers=[dict(name="redirect", kind="pure"), dict(name="authz", kind="pure", spec_sees_obs=True)],
+        drivers=[dict(name="redirect", kind="pure"), dict(name="authz", kind="pure", spec_sees_obs=True), dict(name="hist", kind="hist")],
         rule="D4 pure driver: MatchRedirectURIWithClientRedirectURIs / IsValidRedirectURI / IsRedirectURISecure(Strict) / IsLocalhost called directly; every op line carries the raw strings AND the components the real net/url, net.ParseIP and govalidator computed (the executor recomputes them and refuses tampered lines). Cases: bounded-exhaustive concatenations scheme x userinfo x host x port x path x query x fragment over a small (quick) / mid (thorough) alphabet; one- and two-component deviations of 8 base URIs over a large near-miss alphabet (case, percent-encoding, userinfo, ports, v4/v6/mapped loopback literals, look-alike hosts, dot-segments, query variants, fragments, relative, opaque, custom schemes); hand-picked strings (control characters, backslashes, embedded URLs); omitted redirect_uri against 0/1/2 registrations; seeded random registrations with requests derived by re-picking components and string mutations. Non-trivial = accepted, or rejected by the function's own logic on a near miss (the requested string parses and shares its case-folded host name with a parseable registered URI; redirect_uri omitted with something registered; unary functions: the URL parses). distinct = distinct op lines",
         assumptions=["url.Parse, URL.String/Hostname/Port, net.ParseIP(..).IsLoopback and govalidator.IsRequestURL are parameters: their observed outputs are fed to the model per case",
                      "ParserFaithful (IsRequestURL(u.String()) implies u.Scheme != \"\") is an explicit hypothesis of the two 'absolute' theorems and is checked by the executor on every case",
@@ -211,7 +211,7 @@ PROPS = {
     ),
     "C12": dict(
         modules=["Fosite.Props.C12", "Fosite.Props.C12b"],
-        drivers=[dict(name="scope", kind="pure"), dict(name="audience", kind="pure")],
+        drivers=[dict(name="scope", kind="pure"), dict(name="audience", kind="pure"), dict(name="hist", kind="hist")],
         rule="D4 pure drivers. scope: every (strategy, matcher list, needle) over the segment alphabet {a,b,*,''} up to 3 (quick) / 4 (thorough) segments with one matcher, sampled/exhaustive pairs of matchers, plus seeded random long dotted names biased to near-matches; non-trivial = accepted, or some matcher agrees with the needle on its first segment. audience: every entry carries the components the real net/url.Parse produced; bounded-exhaustive single whitelisted x single requested URL over schemes x hosts x path shapes ('', '/', '/a', '/a/', '/a/b', '/ab', '/a//', '//a', ...), same-origin path pairs with query/fragment/userinfo decorations, unparsable strings and non-URL audiences in every list position, pairs of lists, seeded random lists with 75% near-match mutations; non-trivial = accepted, or a parse error is involved, or some pair agrees on scheme and host so the path rule decides (default) / is equal up to trailing slashes and case (exact). distinct = distinct op lines",
         assumptions=["scope strings are compared as sequences of Unicode code points in the model and bytes in Go; the scope generators use ASCII only",
                      "audience strings are transported hex-encoded byte by byte, so byte semantics are exact; net/url.Parse is trusted: the model takes its output (ok/scheme/host/path) as input and the harness re-derives it from the raw string on every execution, including replay"],
